@@ -120,9 +120,10 @@ def Kind.zero : Kind → MacP
 /-- `ChMask.MarshalBinary`: bit i of the little-endian uint16 = channel i. -/
 def chMaskEnc (m : BitVec 16) : Bytes := leBytes 2 m.toNat
 
-/-- `ChMask.UnmarshalBinary` on a receiver holding `prev`: bits are only ever *set*. -/
-def chMaskDec (prev : BitVec 16) (data : Bytes) : Outcome (BitVec 16) :=
-  if data.length != 2 then err else ok (prev ||| BitVec.ofNat 16 (leNat data))
+/-- `ChMask.UnmarshalBinary` on a receiver holding `prev`: every bit is assigned
+(before the repair c10-decode-into-used-value bits were only ever *set*: `prev ||| …`). -/
+def chMaskDec (_prev : BitVec 16) (data : Bytes) : Outcome (BitVec 16) :=
+  if data.length != 2 then err else ok (BitVec.ofNat 16 (leNat data))
 
 /-- `Redundancy.MarshalBinary` -/
 def redundancyEnc (cntl nb : Byte) : Outcome Bytes :=
@@ -252,12 +253,10 @@ def Kind.dec (k : Kind) (prev : MacP) (data : Bytes) : Outcome MacP :=
   | .rekeyConf, [b] => ok (.rekeyConf (b &&& 0x0f#8))
   | .linkCheckAns, [a, b] => ok (.linkCheckAns a b)
   | .linkADRReq, [b0, b1, b2, b3] =>
-      let pm := match prev with | .linkADRReq _ _ m _ _ => m | _ => 0
-      ok (.linkADRReq ((b0 &&& 0xf0#8) >>> 4) (b0 &&& 0x0f#8) (pm ||| BitVec.ofNat 16 (leNat [b1, b2]))
+      ok (.linkADRReq ((b0 &&& 0xf0#8) >>> 4) (b0 &&& 0x0f#8) (BitVec.ofNat 16 (leNat [b1, b2]))
             ((b3 &&& 0x70#8) >>> 4) (b3 &&& 0x0f#8))
   | .linkADRAns, [b] =>
-      let (pa, pb, pc) := match prev with | .linkADRAns a b c => (a, b, c) | _ => (false, false, false)
-      ok (.linkADRAns (pa || bit b 0) (pb || bit b 1) (pc || bit b 2))
+      ok (.linkADRAns (bit b 0) (bit b 1) (bit b 2))
   | .dutyCycleReq, [b] => ok (.dutyCycleReq b)
   | .rxParamSetupReq, [b0, b1, b2, b3] =>
       let (o, r2, r1) := dlSettingsDec b0
@@ -273,8 +272,7 @@ def Kind.dec (k : Kind) (prev : MacP) (data : Bytes) : Outcome MacP :=
   | .newChannelAns, [b] => ok (.newChannelAns (bit b 0) (bit b 1))
   | .rxTimingSetupReq, [b] => ok (.rxTimingSetupReq (b &&& 0x0f#8))
   | .txParamSetupReq, [b] =>
-      let (pd, pu) := match prev with | .txParamSetupReq d u _ => (d, u) | _ => (0, 0)
-      ok (.txParamSetupReq (if bit b 5 then 1 else pd) (if bit b 4 then 1 else pu) (b &&& 15#8))
+      ok (.txParamSetupReq (if bit b 5 then 1 else 0) (if bit b 4 then 1 else 0) (b &&& 15#8))
   | .dlChannelReq, [b0, b1, b2, b3] => ok (.dlChannelReq b0 (freq100Dec [b1, b2, b3]))
   | .dlChannelAns, [b] => ok (.dlChannelAns (bit b 1) (bit b 0))
   | .pingSlotInfoReq, [b] => ok (.pingSlotInfoReq (b &&& 7#8))
